@@ -399,4 +399,36 @@ theorem host_preserved_step {s s' : State} {a : Action} (hi : PoolInv s) (hi' : 
       · simp [poolObj, h, poolDelete_self_gt _ _ _ _ hp hn1]
     · simp [poolObj, h, poolDelete_other _ _ _ hk, hp]
 
+/-- every pool entry has a positive usage count (LoadOrStore starts at 1, Delete removes at 0) -/
+def PoolPos (s : State) : Prop := ∀ k o n, s.pool k = some (o, n) → 0 < n
+
+theorem poolPos_step {s s' : State} {a : Action} (hi : PoolPos s) (hs : step s a = some s') : PoolPos s' := by
+  intro k' o' n' hp'
+  rcases step_pool_cases hs with h | ⟨c, k, o, n, _, hp, h⟩ | ⟨c, k, _, hp, h⟩ | ⟨c, k, _, h⟩
+  · rw [h] at hp'; exact hi k' o' n' hp'
+  · rw [h] at hp'
+    by_cases hk : k' = k
+    · subst hk; simp at hp'; omega
+    · rw [upd_other _ _ _ _ hk] at hp'; exact hi k' o' n' hp'
+  · rw [h] at hp'
+    by_cases hk : k' = k
+    · subst hk; simp at hp'; omega
+    · rw [upd_other _ _ _ _ hk] at hp'; exact hi k' o' n' hp'
+  · rw [h] at hp'
+    by_cases hk : k' = k
+    · subst hk
+      cases hp : s.pool k' with
+      | none => simp [poolDelete, hp] at hp'
+      | some v =>
+        obtain ⟨o, n⟩ := v
+        by_cases hn : n ≤ 1
+        · rw [poolDelete_self_le _ _ _ _ hp hn] at hp'; simp at hp'
+        · rw [poolDelete_self_gt _ _ _ _ hp hn] at hp'; simp at hp'; omega
+    · rw [poolDelete_other _ _ _ hk] at hp'; exact hi k' o' n' hp'
+
+theorem poolPos_reachable {s : State} (h : Reachable s) : PoolPos s := by
+  induction h with
+  | init => intro k o n hp; simp [init] at hp
+  | step a _ hs ih => exact poolPos_step ih hs
+
 end CaddyModel.C09
